@@ -4,7 +4,7 @@ from driver.e3gen import E3Check, Verdict
 from props import qcommon as qc
 
 K = e3.EV
-T_ADD, T_OR, T_REPLACE, T_TIMER, T_READ = 0, 1, 2, 3, 4
+T_ADD, T_OR, T_REPLACE, T_TIMER, T_READ, T_WRITE, T_SIGNAL = 0, 1, 2, 3, 4, 5, 6
 SENTINEL = 0x5e471e1
 
 
